@@ -493,39 +493,47 @@ class WFSA:
             S = _gen_nt()
         cfg = CFG(R=self.R, V=self.alphabet - {EPSILON}, S=S)
 
+        # A state whose name is also an alphabet symbol (e.g. the states of
+        # `from_string`, or int states after `to_bytes`) would be read as a
+        # terminal of the grammar; give such states a fresh nonterminal name.
+        fresh = {q: _gen_nt(f"{q}") for q in self.states if q in cfg.V}
+
+        def N(q):
+            return fresh.get(q, q)
+
         if recursion == "right":
             # add production rule for initial states
             for i, w in self.I:
-                cfg.add(w, S, i)
+                cfg.add(w, S, N(i))
 
             # add production rule for final states
             for i, w in self.F:
-                cfg.add(w, i)
+                cfg.add(w, N(i))
 
             # add other production rules
             for i, a, j, w in self.arcs():
                 if a == EPSILON:
-                    cfg.add(w, i, j)
+                    cfg.add(w, N(i), N(j))
                 else:
-                    cfg.add(w, i, a, j)
+                    cfg.add(w, N(i), a, N(j))
 
         else:
             assert recursion == "left"
 
             # add production rule for final states
             for i, w in self.F:
-                cfg.add(w, S, i)
+                cfg.add(w, S, N(i))
 
             # add production rule for initial states
             for i, w in self.I:
-                cfg.add(w, i)
+                cfg.add(w, N(i))
 
             # add other production rules
             for i, a, j, w in self.arcs():
                 if a == EPSILON:
-                    cfg.add(w, j, i)
+                    cfg.add(w, N(j), N(i))
                 else:
-                    cfg.add(w, j, i, a)
+                    cfg.add(w, N(j), N(i), a)
 
         return cfg
 
